@@ -2407,13 +2407,21 @@ Definition wlib_ok (l : wlib) : Prop :=
   wprops_ok (li_props l) /\ NoDup (map cl_name (li_cells l)) /\ Forall wcell_okp (li_cells l) /\
   forall cfg, N.of_nat (length (write_oas_model cfg l)) < two64.
 
+Lemma Forall_proj1 {A} (P Q : A -> Prop) l : Forall (fun a => P a /\ Q a) l -> Forall P l.
+Proof. intros H. eapply Forall_impl; [|exact H]. cbv beta. intros a Ha. apply Ha. Qed.
+Lemma Forall_proj2 {A} (P Q : A -> Prop) l : Forall (fun a => P a /\ Q a) l -> Forall Q l.
+Proof. intros H. eapply Forall_impl; [|exact H]. cbv beta. intros a Ha. apply Ha. Qed.
+
 Lemma wcell_okp_ok c : wcell_okp c -> wcell_ok c.
 Proof.
-  intros (_ & H1 & H2 & H3 & H4 & _). repeat split; (eapply Forall_impl; [|eassumption]); intros a Ha; apply Ha.
+  intros (_ & H1 & H2 & H3 & H4 & _). unfold wcell_ok.
+  split; [exact (Forall_proj1 _ _ _ H1)|]. split; [exact (Forall_proj1 _ _ _ H2)|].
+  split; [exact (Forall_proj1 _ _ _ H3)|exact (Forall_proj1 _ _ _ H4)].
 Qed.
 Lemma pview_elems_props c : wcell_okp c -> Forall (fun ep => wprops_ok (snd ep)) (pview_elems c).
 Proof.
-  intros (_ & H1 & H2 & H3 & H4 & _). unfold pview_elems. repeat apply Forall_app; repeat split.
+  intros (_ & H1 & H2 & H3 & H4 & _). unfold pview_elems.
+  apply Forall_app. split; [|apply Forall_app; split; [|apply Forall_app; split]].
   - apply Forall_forall. intros ep Hin. apply in_map_iff in Hin. destruct Hin as (p & <- & Hp).
     rewrite Forall_forall in H1. apply (H1 p Hp).
   - apply Forall_forall. intros ep Hin. apply in_flat_map in Hin. destruct Hin as (h & Hh & Hin).
@@ -2459,3 +2467,302 @@ Lemma k_after_cellnames_fields k s names pds :
   k_ts k' = k_ts k /\ k_pn k' = k_pn k /\ k_ps k' = k_ps k /\ k_psn k' = k_psn k /\
   md1 (k_md k') = md1 (k_md k) /\ md2 (k_md k') = md2 (k_md k) /\ md3 (k_md k') = md3 (k_md k).
 Proof. destruct names; cbn; destruct (k_md k) as [[[a b] c0] e]; repeat split; reflexivity. Qed.
+
+Definition k_init (u : real) : core := mkC u [] [] T_lib [] 0 [] [] 0 [] 0 [] 0 (0, 0, 0, 0).
+
+Lemma geps_res_wf KF VF TF CN geps veps :
+  Forall2 (gep_res KF VF TF CN) geps veps -> Forall (fun ep => wprops_ok (snd ep)) veps ->
+  len_ok KF -> len_ok VF -> len_ok TF -> len_ok CN -> Forall wf_gep geps.
+Proof.
+  intros H Hok HK HV HT HC. revert Hok. induction H as [|g v gs vs H1 H2 IH]; intros Hok; [constructor|].
+  inversion Hok as [|? ? Ho1 Ho2]; subst. constructor; [apply (gep_res_wf KF VF TF CN g v H1 Ho1 HK HV HT HC)|apply IH; exact Ho2].
+Qed.
+
+Lemma cells_res_wf KF VF TF CN gcs l :
+  cells_res KF VF TF CN gcs l -> Forall wcell_okp l -> len_ok KF -> len_ok VF -> len_ok TF -> len_ok CN ->
+  Forall wf_gcell gcs.
+Proof.
+  intros H Hok HK HV HT HC. revert Hok. induction H as [|gc c gcs cs H1 H2 IH]; intros Hok; [constructor|].
+  inversion Hok as [|? ? Ho1 Ho2]; subst. constructor; [|apply IH; exact Ho2].
+  destruct H1 as (i & Hi & Hn & Hp & Hel). split; [|split; [exact Hp|]].
+  - exists i. split; [exact Hn|]. apply (nth_error_wf CN i _ HC (cell_index_some CN _ i Hi)).
+  - apply (geps_res_wf KF VF TF CN _ _ Hel (pview_elems_props c Ho1) HK HV HT HC).
+Qed.
+
+Lemma cn_res_wf cfg cells offs KF VF B pds l :
+  Forall2 (fun (pd : list prop) (c : wcell) =>
+             Forall2 (prop_res KF VF) pd (cellname_props cfg c (cell_offset_of cells offs (cl_name c)))) pds l ->
+  Forall wcell_okp l -> Forall (fun o => o <= B) offs -> B < two64 -> len_ok KF -> len_ok VF ->
+  Forall (Forall wf_nprop) pds.
+Proof.
+  intros H Hok Hoffs HB HK HV. revert Hok. induction H as [|pd c pds cs H1 H2 IH]; intros Hok; [constructor|].
+  inversion Hok as [|? ? Ho1 Ho2]; subst. constructor; [|apply IH; exact Ho2].
+  apply (props_res_wf KF VF _ _ H1); [|exact HK|exact HV].
+  apply cellname_props_ok; [apply Ho1|]. pose proof (cell_offset_of_bound cells offs (cl_name c) B Hoffs). unfold wf_u. lia.
+Qed.
+
+Lemma NR_items_len m keys : NR m keys -> length (nm_items m) = length keys.
+Proof. intros H. destruct (NR_items m keys H) as (_ & _ & HP). rewrite (Permutation_length HP). apply enum_from_length. Qed.
+
+Theorem oas_writer_conforms_lemma : forall cfg l, wlib_ok l -> spec_oas_decode (write_oas_model cfg l) = Some (view_w cfg l).
+Proof.
+  intros cfg l (Hlp & Hnd & Hcells & Hsize). specialize (Hsize cfg).
+  unfold view_w, cell_offsets. unfold write_oas_model in *. unfold write_oas_run in *.
+  set (names := map cl_name (li_cells l)) in *.
+  set (start := start_header ++ enc_real (li_unit l) ++ [1]) in *.
+  (* the three stateful passes *)
+  destruct (properties_to_oas_res (li_props l) pstate0 [] NR_names0) as (K1 & X1 & R1).
+  pose proof (properties_to_oas_enc (li_props l) pstate0) as Enc1.
+  destruct (properties_to_oas pstate0 (li_props l)) as [[r_lp d_lp] st1] eqn:E1. cbn [fst snd] in X1, R1, Enc1.
+  set (pos1 := N.of_nat (length start) + reclen r_lp) in *.
+  destruct (cells_to_oas_res names (li_cells l) [] pos1 names0 [] st1 K1 eq_refl Hnd NR_names0 (proj1 X1))
+    as (T2 & K2 & HT2 & _ & X2 & R2).
+  pose proof (cells_offsets_bound names (li_cells l) pos1 names0 st1) as Hoffs.
+  destruct (cells_to_oas names pos1 names0 st1 (li_cells l)) as [[[[r_c d_c] offs] ts] st2] eqn:E2.
+  cbn [fst snd] in HT2, X2, R2, Hoffs.
+  destruct (cellnames_to_oas_res cfg names offs (li_cells l) st2 K2 (proj1 X2)) as (K3 & X3 & R3).
+  pose proof (cellnames_records_bound cfg names offs (li_cells l) st2) as Hcnb.
+  destruct (cellnames_to_oas cfg names offs st2 (li_cells l)) as [[r_cn d_cn] st3] eqn:E3.
+  cbn [fst snd] in X3, R3, Hcnb.
+  cbn [run_failed run_start run_records run_end run_offsets] in *.
+  (* no hash-map failure *)
+  destruct X3 as (NR3 & PK3 & PV3). destruct X2 as (NR2 & PK2 & PV2). destruct X1 as (NR1 & PK1 & PV1).
+  assert (Hnf : nm_fail ts || nm_fail (ps_names st3) = false).
+  { destruct HT2 as (F1 & _). destruct NR3 as (F2 & _). rewrite F1, F2. reflexivity. }
+  rewrite Hnf in *.
+  set (r_ts := numbered_name_records OasisRecord_TEXTSTRING (nm_items ts)) in *.
+  set (r_pn := numbered_name_records OasisRecord_PROPNAME (nm_items (ps_names st3))) in *.
+  set (r_ps := propstring_records (ps_vals st3)) in *.
+  set (VF := ps_vals st3) in *.
+  (* sizes *)
+  assert (Hfile : N.of_nat (length start) + reclen r_lp + reclen r_c + reclen r_cn + reclen r_ts + reclen r_pn + reclen r_ps < two64).
+  { rewrite !app_length in Hsize. rewrite !concat_app, !app_length in Hsize. unfold reclen. lia. }
+  destruct (names_records_bounds OasisRecord_TEXTSTRING (nm_items ts)) as [Bts1 Bts2]. fold r_ts in Bts1, Bts2.
+  destruct (names_records_bounds OasisRecord_PROPNAME (nm_items (ps_names st3))) as [Bpn1 Bpn2]. fold r_pn in Bpn1, Bpn2.
+  destruct (propstring_records_bounds VF) as [Bps1 Bps2]. fold r_ps in Bps1, Bps2.
+  assert (LK : len_ok K3) by (unfold len_ok; rewrite <- (NR_items_len _ _ NR3); lia).
+  assert (LT : len_ok T2) by (unfold len_ok; rewrite <- (NR_items_len _ _ HT2); lia).
+  assert (LV : len_ok VF) by (unfold len_ok; lia).
+  assert (LC : len_ok names) by (unfold len_ok, names; rewrite map_length; lia).
+  (* what is written is well formed *)
+  assert (PK13 : prefix K1 K3) by (eapply prefix_trans; eassumption).
+  assert (PV13 : prefix (ps_vals st1) VF) by (eapply prefix_trans; eassumption).
+  pose proof (props_res_wf K3 VF d_lp (li_props l) (R1 K3 VF PK13 PV13) Hlp LK LV) as Wlp.
+  pose proof (cells_res_wf K3 VF T2 names d_c (li_cells l) (R2 K3 VF T2 PK3 PV3 (prefix_refl _)) Hcells LK LV LT LC) as Wc.
+  pose proof (cn_res_wf cfg names offs K3 VF (pos1 + reclen r_c) d_cn (li_cells l) (R3 K3 VF (prefix_refl _) (prefix_refl _))
+                Hcells Hoffs ltac:(unfold pos1; lia) LK LV) as Wcn.
+  (* the record loop *)
+  set (u := real_of_bits (li_unit l)).
+  destruct (steps_props_lib false d_lp modal0 (k_init u) Wlp eq_refl eq_refl) as (m1 & SA & A1).
+  set (kA := k_set_lprops (k_init u) (rev d_lp ++ k_lprops (k_init u))) in *.
+  destruct (steps_cells false names (li_cells l) pos1 names0 st1 r_c d_c offs ts st2 E2
+              (Forall_impl _ wcell_okp_ok Hcells) Wc m1 kA A1) as (m2 & tg2 & SB & A2).
+  set (kB := k_set_cells kA (rev (map rcell_g d_c) ++ k_cells kA) tg2) in *.
+  destruct (steps_cellnames false cfg names offs (li_cells l) st2 r_cn d_cn st3 E3
+              (Forall_impl _ (fun c (H : wcell_okp c) => proj1 H) Hcells) Wcn m2 kB 0%nat A2
+              (or_introl eq_refl) eq_refl (fun j _ => eq_refl)) as (m3 & SC & A3).
+  fold names in SC. set (kC := k_after_cellnames kB 0 names d_cn) in *.
+  destruct (k_after_cellnames_fields kB 0 names d_cn) as (FC1 & FC2 & FC3 & FC4 & FC5 & FC6 & FC7 & FC8 & FC9 & FC10 & FC11 & FC12).
+  fold kC in FC1, FC2, FC3, FC4, FC5, FC6, FC7, FC8, FC9, FC10, FC11, FC12.
+  (* TEXTSTRING *)
+  destruct (NR_items ts T2 HT2) as (NDts & INts & PMts).
+  assert (SD : steps false m3 kC r_ts m3 (k_after_ts kC (nm_items ts))).
+  { apply steps_textstrings; [left; rewrite FC10; reflexivity|apply (items_values_nodup _ _ PMts)|].
+    intros kv Hin. split; [|split].
+    - unfold wf_str. specialize (Bts2 kv Hin). lia.
+    - destruct kv as [s v]. apply INts in Hin. apply (nth_error_wf T2 v s LT Hin).
+    - rewrite FC6. reflexivity. }
+  set (kD := k_after_ts kC (nm_items ts)) in *.
+  destruct (k_after_ts_fields kC (nm_items ts)) as (FD1 & FD2 & FD3 & FD4 & FD5 & FD6 & FD7 & FD8 & FD9 & FD10 & FD11).
+  fold kD in FD1, FD2, FD3, FD4, FD5, FD6, FD7, FD8, FD9, FD10, FD11.
+  (* PROPNAME *)
+  destruct (NR_items (ps_names st3) K3 NR3) as (NDpn & INpn & PMpn).
+  assert (SE : steps false m3 kD r_pn m3 (k_after_pn kD (nm_items (ps_names st3)))).
+  { apply steps_propnames; [left; rewrite FD10, FC11; reflexivity|apply (items_values_nodup _ _ PMpn)|].
+    intros kv Hin. split; [|split].
+    - unfold wf_str. specialize (Bpn2 kv Hin). lia.
+    - destruct kv as [s v]. apply INpn in Hin. apply (nth_error_wf K3 v s LK Hin).
+    - rewrite FD7, FC7. reflexivity. }
+  set (kE := k_after_pn kD (nm_items (ps_names st3))) in *.
+  destruct (k_after_pn_fields kD (nm_items (ps_names st3))) as (FE1 & FE2 & FE3 & FE4 & FE5 & FE6 & FE7 & FE8 & FE9 & FE10).
+  fold kE in FE1, FE2, FE3, FE4, FE5, FE6, FE7, FE8, FE9, FE10.
+  (* PROPSTRING *)
+  assert (SF : steps false m3 kE r_ps m3 (k_after_ps kE 0 VF)).
+  { apply steps_propstrings; [left; rewrite FE10, FD11, FC12; reflexivity|rewrite FE9, FD9, FC9; reflexivity| |].
+    - apply Forall_forall. intros s Hin. unfold wf_str. specialize (Bps2 s Hin). lia.
+    - intros j _. rewrite FE8, FD8, FC8. reflexivity. }
+  set (kF := k_after_ps kE 0 VF) in *.
+  destruct (k_after_ps_fields kE 0 VF) as (FF1 & FF2 & FF3 & FF4 & FF5 & FF6 & FF7 & FF8).
+  fold kF in FF1, FF2, FF3, FF4, FF5, FF6, FF7, FF8.
+  assert (Sall : steps false modal0 (k_init u) (r_lp ++ r_c ++ r_cn ++ r_ts ++ r_pn ++ r_ps) m3 kF).
+  { rewrite Enc1. eapply steps_app; [exact SA|]. eapply steps_app; [exact SB|]. eapply steps_app; [exact SC|].
+    eapply steps_app; [exact SD|]. eapply steps_app; [exact SE|exact SF]. }
+  set (R := r_lp ++ r_c ++ r_cn ++ r_ts ++ r_pn ++ r_ps) in *.
+  (* END *)
+  pose proof (end_record_ok
+                (match li_cells l with [] => 0 | _ :: _ => pos1 + reclen r_c end)
+                (if 0 <? nm_count ts then pos1 + reclen r_c + reclen r_cn else 0)
+                (if 0 <? nm_count (ps_names st3) then pos1 + reclen r_c + reclen r_cn + reclen r_ts else 0)
+                (match VF with [] => 0 | _ :: _ => pos1 + reclen r_c + reclen r_cn + reclen r_ts + reclen r_pn end)) as Hend.
+  match type of Hend with ?A -> ?B -> ?C -> ?D -> _ =>
+    assert (W1 : A) by (unfold wf_u, pos1; destruct (li_cells l); lia);
+    assert (W2 : B) by (unfold wf_u, pos1; destruct (0 <? nm_count ts); lia);
+    assert (W3 : C) by (unfold wf_u, pos1; destruct (0 <? nm_count (ps_names st3)); lia);
+    assert (W4 : D) by (unfold wf_u, pos1; destruct VF; lia)
+  end.
+  specialize (Hend W1 W2 W3 W4).
+  destruct (end_record_w _ _ _ _) as [|code tail]; [contradiction|]. destruct Hend as [-> Hend].
+  (* the tables at END *)
+  assert (Epn : k_pn kF = rev (map swap_kv (nm_items (ps_names st3))) ++ []) by (rewrite FF7, FE7, FD7, FC7; reflexivity).
+  assert (Eps : k_ps kF = rev (map swap_kv (enum_from 0 VF)) ++ []) by (rewrite FF8, FE8, FD8, FC8; reflexivity).
+  assert (Ets : k_ts kF = rev (map swap_kv (nm_items ts)) ++ []) by (rewrite FF6, FE6, FD6, FC6; reflexivity).
+  assert (Ecn : k_cn kF = rev (map swap_kv (enum_from 0 names)) ++ []) by (rewrite FF4, FE4, FD4, FC4; reflexivity).
+  assert (Ecnp : k_cnp kF = rev (cnp_list 0 d_cn) ++ []) by (rewrite FF5, FE5, FD5, FC5; reflexivity).
+  assert (Elp : k_lprops kF = rev d_lp ++ []) by (rewrite FF2, FE2, FD2, FC2; reflexivity).
+  assert (Ecs : k_cells kF = rev (map rcell_g d_c) ++ []) by (rewrite FF3, FE3, FD3, FC3; reflexivity).
+  assert (Eu : k_unit kF = u) by (rewrite FF1, FE1, FD1, FC1; reflexivity).
+  assert (AgK : agrees (k_pn kF) K3) by (rewrite Epn; apply agrees_items; exact PMpn).
+  assert (AgV : agrees (k_ps kF) VF) by (rewrite Eps; apply agrees_enum).
+  assert (AgT : agrees (k_ts kF) T2) by (rewrite Ets; apply agrees_items; exact PMts).
+  assert (AgC : agrees (k_cn kF) names) by (rewrite Ecn; apply agrees_enum).
+  assert (Hfin : finalize (DS m3 kF) =
+                 Some (mkLayout u (view_props (li_props l)) (map (view_cell cfg names offs) (li_cells l)))).
+  { rewrite finalize_DS. rewrite Elp, app_nil_r, rev_involutive.
+    rewrite (props_res_resolve (k_pn kF) (k_ps kF) K3 VF d_lp (li_props l) AgK AgV (R1 K3 VF PK13 PV13)). cbn [obnd].
+    rewrite Ecs, app_nil_r, rev_involutive.
+    pose proof (R2 K3 VF T2 PK3 PV3 (prefix_refl _)) as RC. pose proof (R3 K3 VF (prefix_refl _) (prefix_refl _)) as RN.
+    rewrite (omap_nth (resolve_cell (DS m3 kF)) (map rcell_g d_c) (map (view_cell cfg names offs) (li_cells l))).
+    - cbn [obnd]. rewrite Eu. reflexivity.
+    - rewrite !map_length. apply (Forall2_length_eq _ _ _ RC).
+    - intros j a b Ha Hb. rewrite nth_error_map in Ha, Hb.
+      destruct (nth_error d_c j) as [gc|] eqn:Egc; [|discriminate]. destruct (nth_error (li_cells l) j) as [c|] eqn:Ec; [|discriminate].
+      cbn [option_map] in Ha, Hb. injection Ha as <-. injection Hb as <-.
+      destruct (Forall2_nth _ _ _ j gc c RC Egc Ec) as (i & Hi & Hres).
+      assert (Hij : i = N.of_nat j).
+      { pose proof (cell_index_some names (cl_name c) i Hi) as H1.
+        assert (H2 : nth_error names j = Some (cl_name c)) by (unfold names; rewrite nth_error_map, Ec; reflexivity).
+        assert (N.to_nat i = j); [|lia].
+        apply (proj1 (NoDup_nth_error names) Hnd); [apply nth_error_Some; congruence|congruence]. }
+      destruct (nth_error d_cn j) as [pd|] eqn:Epd.
+      + apply (resolve_rcell_g m3 kF cfg names offs K3 VF T2 i gc c AgC AgT AgK AgV Hi Hres).
+        rewrite Ecnp, app_nil_r, cnprops_rev, rev_involutive. rewrite Hij.
+        change (N.of_nat j) with (N.of_nat (0 + j)). rewrite cnp_filter, Epd.
+        apply (props_res_resolve (k_pn kF) (k_ps kF) K3 VF _ _ AgK AgV). apply (Forall2_nth _ _ _ j pd c RN Epd Ec).
+      + exfalso. apply nth_error_None in Epd. rewrite (Forall2_length_eq _ _ _ RN) in Epd.
+        assert (j < length (li_cells l))%nat by (apply nth_error_Some; congruence). lia. }
+  (* the header *)
+  unfold spec_oas_decode. unfold start, start_header. rewrite <- !app_assoc. rewrite strip_prefix_app. cbn [obnd].
+  change OasisRecord_START with 1. cbn [app].
+  rewrite rd_uint_small by lia. cbn [obnd N.eqb Pos.eqb negb].
+  match goal with |- context [rd_string (3 :: 49 :: 46 :: 48 :: ?X)] =>
+    change (3 :: 49 :: 46 :: 48 :: X) with (wr_string version_1_0 ++ X) end.
+  rewrite rd_string_enc by (unfold wf_str, two64; cbn; lia). cbn [obnd].
+  change (strip_prefix version_1_0 version_1_0) with (Some (@nil N)). cbn [obnd].
+  change (length version_1_0 =? 3)%nat with true. cbn [negb].
+  rewrite rd_real_enc_real. cbn [obnd app].
+  rewrite rd_uint_small by lia. cbn [obnd N.ltb N.compare Pos.compare Pos.compare_cont N.eqb].
+  change (d_init (real_of_bits (li_unit l))) with (DS modal0 (k_init u)).
+  apply (dec_loop_mono (length R + 1)).
+  - rewrite (steps_loop false _ _ _ _ _ Sall 1%nat (2 :: tail)). cbn [dec_loop].
+    unfold dec_record. rewrite rd_uint_small by lia. cbn [obnd]. rewrite Hend. rewrite Hfin. reflexivity.
+  - rewrite app_length. pose proof (concat_length_ge R (steps_nonempty _ _ _ _ _ _ Sall)). cbn [length]. lia.
+Qed.
+
+Check oas_writer_conforms_lemma.
+Print Assumptions oas_writer_conforms_lemma.
+
+(* ================================================================== non-vacuity *)
+Definition sample_wlib : wlib :=
+  mkWLib 4652007308841189376 (* 1000.0 = 1e-6 / 1e-9 *)
+    [([80; 49], [VUInt 7; VStr [97; 32; 98]; VInt (-5)%Z; VReal 4602678819172646912 (* 0.5 *)])]
+    [ mkWCell [84; 79; 80]
+        [ mkWPoly 1 2 [(0, 0); (10, 0); (10, 5); (0, 5)]%Z (WRect 3 2 20 (-30)) [([80; 50], [VStr [120; 121]])];
+          mkWPoly 3 0 [(0, 0); (7, 3); (-2, 9)]%Z (WExplX [30; 10; 20]%Z) [] ]
+        [ mkWPath [mkWPel 4 0 5 (WE_ext 5 (-2)); mkWPel 5 1 0 WE_half] [(0, 0); (10, 0); (10, 10)]%Z (WExpl [(5, 5); (9, -1)]%Z)
+                  [([80; 49], [VStr [97; 32; 98]])] ]
+        [ mkWRef [65] 100%Z (-200)%Z 4607182418800017408 0 (Some 0%Z) false WNone [];
+          mkWRef [65] 1%Z 2%Z 4611686018427387904 (* 2.0 *) 4609753056924675352 (* pi/2 *) (Some 1%Z) true (WReg 2 3 (7, 1) (-1, 8))%Z [];
+          mkWRef [90; 90] 0%Z 0%Z 4607182418800017408 4613937818241073152 (* 3.0 *) None false WNone [] ]
+        [ mkWLabel [104; 105] 6 7 (-3)%Z 4%Z (WExplY [4; 9]%Z) [([80; 50], [VUInt 1])];
+          mkWLabel [104; 105] 6 8 0%Z 0%Z WNone [] ]
+        [([80; 51], [])];
+      mkWCell [65] [] [] [] [] [] ].
+
+Example sample_wlib_ok : wlib_ok sample_wlib.
+Proof.
+  split; [|split; [|split]].
+  - repeat constructor; unfold wf_str, wf_u, fits63; cbn; rewrite ?two64_val, ?two63_val; lia.
+  - cbn. repeat constructor; cbn; intuition discriminate.
+  - assert (Hz : forall a b : Z, (- 2 ^ 62 < a < 2 ^ 62)%Z -> (- 2 ^ 62 < b < 2 ^ 62)%Z -> ptc (a, b)) by (intros; split; assumption).
+    repeat (first [apply Forall_nil | apply Forall_cons | split]);
+      try exact I; try (apply Hz; lia); try discriminate;
+      unfold wf_str, wf_u, fits63, wf_pt, wpath_ok, wpel_ok, wend_ok; cbn [fst snd length];
+      rewrite ?two64_val, ?two63_val; try lia.
+    all: try (repeat (first [apply Forall_nil | apply Forall_cons | split]); try exact I; try (apply Hz; lia);
+              unfold wf_str, wf_u, fits63, wend_ok; cbn [fst snd length pe_layer pe_type pe_hw pe_end];
+              rewrite ?two64_val, ?two63_val; lia).
+  - intros [[|]]; vm_compute; reflexivity.
+Qed.
+
+(* the statement evaluated on the sample, with and without S_CELL_OFFSET *)
+Example sample_wlib_conforms :
+  spec_oas_decode (write_oas_model (mkWCfg true) sample_wlib) = Some (view_w (mkWCfg true) sample_wlib) /\
+  spec_oas_decode (write_oas_model (mkWCfg false) sample_wlib) = Some (view_w (mkWCfg false) sample_wlib) /\
+  length (write_oas_model (mkWCfg true) sample_wlib) = 506%nat.
+Proof. split; [vm_compute; reflexivity|split; vm_compute; reflexivity]. Qed.
+
+(* tie (generated): the record codes the model writes through Generated.v are the ones the decoder of OasisSpec.v and
+   the proofs above use *)
+Theorem c04w_source_constants :
+  (OasisRecord_START, OasisRecord_END, OasisRecord_CELLNAME_IMPLICIT, OasisRecord_TEXTSTRING, OasisRecord_PROPNAME,
+   OasisRecord_PROPSTRING_IMPLICIT, OasisRecord_CELL_REF_NUM, OasisRecord_PLACEMENT, OasisRecord_PLACEMENT_TRANSFORM,
+   OasisRecord_TEXT, OasisRecord_POLYGON, OasisRecord_PATH, OasisRecord_PROPERTY) =
+  (1, 2, 3, 6, 8, 9, 13, 17, 18, 19, 21, 22, 28)
+  /\ (GDSTK_INITIAL_MAP_CAPACITY, GDSTK_MAP_GROWTH_FACTOR, GDSTK_MAP_CAPACITY_THRESHOLD) = (8, 2, 5).
+Proof. split; reflexivity. Qed.
+Print Assumptions sample_wlib_ok.
+
+(* ================================================================== S_CELL_OFFSET points at the CELL record *)
+Lemma cells_offsets_point cells : forall l pos ts st j off,
+  nth_error (snd (fst (fst (cells_to_oas cells pos ts st l)))) j = Some off ->
+  exists pre post, concat (fst (fst (fst (fst (cells_to_oas cells pos ts st l))))) = pre ++ OasisRecord_CELL_REF_NUM :: post /\
+                   off = pos + N.of_nat (length pre).
+Proof.
+  induction l as [|c t IH]; intros pos ts st j off; cbn [cells_to_oas]; [destruct j; discriminate|].
+  assert (Hhead : exists tl1, fst (fst (fst (cell_to_oas cells ts st c))) = (OasisRecord_CELL_REF_NUM :: tl1)
+                                :: tl (fst (fst (fst (cell_to_oas cells ts st c))))).
+  { unfold cell_to_oas. destruct (polygons_to_oas st (cl_polys c)) as [[r1 d1] st1].
+    destruct (flexpaths_to_oas st1 (cl_paths c)) as [[r2 d2] st2].
+    destruct (references_to_oas cells st2 (cl_refs c)) as [[r3 d3] st3].
+    destruct (labels_to_oas ts st3 (cl_labels c)) as [[[r4 d4] ts4] st4]. cbn [fst snd tl]. eexists. reflexivity. }
+  destruct (cell_to_oas cells ts st c) as [[[r1 d1] ts1] st1]. cbn [fst snd] in Hhead.
+  specialize (IH (pos + reclen r1) ts1 st1).
+  destruct (cells_to_oas cells (pos + reclen r1) ts1 st1 t) as [[[[r2 d2] o2] ts2] st2]. cbn [fst snd] in *.
+  destruct j as [|j']; cbn [nth_error]; intros H.
+  - injection H as <-. destruct Hhead as (tl1 & ->). exists [], (tl1 ++ concat (tl r1) ++ concat r2).
+    split; [cbn [concat app]; rewrite concat_app; cbn [concat app]; rewrite <- ?app_assoc; reflexivity|cbn; lia].
+  - destruct (IH j' off H) as (pre & post & E & ->). exists (concat r1 ++ pre), post.
+    split; [rewrite concat_app, E, <- app_assoc; reflexivity|]. rewrite app_length. unfold reclen. lia.
+Qed.
+
+(* the bytes of a run (= write_oas_model when no hash-map operation failed, which oas_writer_conforms_lemma implies for
+   well-formed libraries): every recorded cell offset is the position of a CELL record *)
+Theorem cell_offsets_point_at_cells_lemma : forall cfg l j off,
+  nth_error (cell_offsets cfg l) j = Some off ->
+  exists pre post,
+    run_start (write_oas_run cfg l) ++ concat (run_records (write_oas_run cfg l)) ++ run_end (write_oas_run cfg l) =
+    pre ++ OasisRecord_CELL_REF_NUM :: post /\ off = N.of_nat (length pre).
+Proof.
+  intros cfg l j off. unfold cell_offsets, write_oas_run.
+  destruct (properties_to_oas pstate0 (li_props l)) as [[r_lp d_lp] st1].
+  set (start := start_header ++ enc_real (li_unit l) ++ [1]).
+  pose proof (cells_offsets_point (map cl_name (li_cells l)) (li_cells l) (N.of_nat (length start) + reclen r_lp) names0 st1 j off) as H.
+  destruct (cells_to_oas (map cl_name (li_cells l)) (N.of_nat (length start) + reclen r_lp) names0 st1 (li_cells l))
+    as [[[[r_c d_c] offs] ts] st2]. cbn [fst snd] in H.
+  destruct (cellnames_to_oas cfg (map cl_name (li_cells l)) offs st2 (li_cells l)) as [[r_cn d_cn] st3].
+  cbn [run_offsets run_start run_records run_end]. intros Hj. destruct (H Hj) as (pre & post & E & ->).
+  exists (start ++ concat r_lp ++ pre). eexists. split.
+  - rewrite !concat_app, E, <- !app_assoc. cbn [app]. reflexivity.
+  - rewrite !app_length. unfold reclen. lia.
+Qed.
+Print Assumptions cell_offsets_point_at_cells_lemma.
